@@ -51,6 +51,110 @@ fn run_guarded(inp: &Input, mask: &Option<Vec<bool>>) -> String {
     guarded(move || everything(&i2, &m2)).unwrap_or_else(|e| e)
 }
 
+/// inputs built BEFORE the one under test in the same (fresh) pool: results must not depend on what a thread computed earlier
+/// (thread-local scratch, caches keyed too coarsely, buffers that are not reset)
+fn history_inputs(inp: &Input) -> Vec<(Input, Option<Vec<bool>>)> {
+    use glam::DVec3;
+    let mut out = vec![];
+    // the same generators contracted towards generator n/2 (its position and the box stay the same): the same cell with other
+    // neighbour positions behind the same plane slots; built with only that cell selected, then with all cells
+    let k = inp.gens.len() / 2;
+    let mut a = inp.clone();
+    let c = inp.gens[k];
+    for g in a.gens.iter_mut() {
+        *g = c + (*g - c) * 0.5;
+    }
+    let mut m = vec![false; a.gens.len()];
+    m[k] = true;
+    out.push((a.clone(), Some(m)));
+    out.push((a, None));
+    // periodic builds of other dimensionalities with the same (normalised) widths
+    for dim in [1usize, 2, 3] {
+        if dim == inp.dim {
+            continue;
+        }
+        let mut b = inp.clone();
+        b.dim = dim;
+        b.periodic = true;
+        for g in b.gens.iter_mut() {
+            if dim < 3 {
+                g.z = 0.;
+            }
+            if dim < 2 {
+                g.y = 0.;
+            }
+        }
+        if dim == 3 && inp.dim < 3 {
+            b.anchor.z = -0.5;
+            b.width.z = 1.;
+            if inp.dim < 2 {
+                b.anchor.y = -0.5;
+                b.width.y = 1.;
+            }
+            for (i, g) in b.gens.iter_mut().enumerate() {
+                g.z = -0.4 + 0.8 * ((i * 7919) % 101) as f64 / 101.;
+                if inp.dim < 2 {
+                    g.y = -0.4 + 0.8 * ((i * 104729) % 103) as f64 / 103.;
+                }
+            }
+        }
+        b.sanitize();
+        if b.gens.len() >= 2 {
+            out.push((b, None));
+        }
+    }
+    let _ = DVec3::ZERO;
+    out
+}
+
+/// the cell of generator n/2 alone
+fn single(inp: &Input) -> String {
+    let k = inp.gens.len() / 2;
+    let mut m = vec![false; inp.gens.len()];
+    m[k] = true;
+    run_guarded(inp, &Some(m))
+}
+
+/// the pair of builds under test: the cell of generator n/2 alone, then the build with the record's mask
+fn pair(inp: &Input, mask: &Option<Vec<bool>>) -> String {
+    let k = inp.gens.len() / 2;
+    let mut m = vec![false; inp.gens.len()];
+    m[k] = true;
+    let a = run_guarded(inp, &Some(m));
+    let b = run_guarded(inp, mask);
+    format!("{} || {}", a, b)
+}
+
+/// the same pair after other builds on the same threads; the LAST of them is the contracted copy with only generator n/2
+/// selected: the same cell position, other neighbours behind the same plane slots, immediately before the pair
+fn with_history(inp: &Input, mask: &Option<Vec<bool>>) -> String {
+    let mut h = history_inputs(inp);
+    h.reverse();
+    for (hi, hm) in h {
+        let _ = run_guarded(&hi, &hm);
+    }
+    pair(inp, mask)
+}
+
+#[cfg(feature = "rayon")]
+fn in_pool_history(threads: usize, inp: &Input, mask: &Option<Vec<bool>>) -> bool {
+    let pool = rayon::ThreadPoolBuilder::new().num_threads(threads).build().expect("thread pool");
+    let hist = pool.install(|| with_history(inp, mask));
+    let pool2 = rayon::ThreadPoolBuilder::new().num_threads(threads).build().expect("thread pool");
+    let fresh = pool2.install(|| pair(inp, mask));
+    // and the other way round: the contracted copy (neighbours CLOSER behind the same plane slots) after the original
+    let (contracted, _) = history_inputs(inp).remove(0);
+    let pool3 = rayon::ThreadPoolBuilder::new().num_threads(threads).build().expect("thread pool");
+    let hist2 = pool3.install(|| {
+        let _ = pair(inp, mask);
+        let _ = single(inp);
+        pair(&contracted, &None)
+    });
+    let pool4 = rayon::ThreadPoolBuilder::new().num_threads(threads).build().expect("thread pool");
+    let fresh2 = pool4.install(|| pair(&contracted, &None));
+    hist == fresh && hist2 == fresh2
+}
+
 #[cfg(feature = "rayon")]
 fn in_pool(threads: usize, inp: &Input, mask: &Option<Vec<bool>>) -> String {
     let pool = rayon::ThreadPoolBuilder::new().num_threads(threads).build().expect("thread pool");
@@ -64,6 +168,7 @@ pub fn run(out: &mut Out, rng: &mut Rng, thorough: bool) {
             ("uniform", 3usize, false, 400usize),
             ("uniform", 3, true, 300),
             ("lattice", 3, true, 27),
+            ("lattice", 3, false, 27),
             ("lattice_wall", 3, false, 27),
             ("uniform", 2, true, 500),
             ("on_boundary", 2, false, 60),
@@ -77,7 +182,21 @@ pub fn run(out: &mut Out, rng: &mut Rng, thorough: bool) {
             ("blob_isolated", 2, true, 1300),
         ] {
             let n = if thorough && rep % 2 == 1 { n * 8 } else { n };
-            let inp = gen::make(rng, fam, dim, periodic, n);
+            let mut inp = gen::make(rng, fam, dim, periodic, n);
+            if fam == "lattice" && dim == 3 {
+                // an EXACT 3 x 3 x 3 lattice (dyadic spacing 1/4) around the centre of the unit cube: every vertex decision of the
+                // central cell is an exact tie; the contracted copy used as build history has spacing 1/8
+                use glam::DVec3;
+                let mut gens = vec![];
+                for i in 0..3 {
+                    for j in 0..3 {
+                        for k in 0..3 {
+                            gens.push(DVec3::splat(0.5) + DVec3::new(i as f64 - 1., j as f64 - 1., k as f64 - 1.) * 0.25);
+                        }
+                    }
+                }
+                inp = Input { family: format!("lattice3{}_unit_exact", if periodic { "p" } else { "r" }), dim: 3, periodic, anchor: DVec3::ZERO, width: DVec3::ONE, gens };
+            }
             let mask = if fam == "blob_isolated" && rng.bool() {
                 Some(gen::make_mask_local(rng, inp.gens.len()))
             } else if rng.chance(0.3) {
@@ -103,6 +222,11 @@ pub fn run(out: &mut Out, rng: &mut Rng, thorough: bool) {
                     meshless_voronoi::verif_hooks::set_jitter_seed(0);
                 }
                 hashes.push(("global-pool".to_string(), crate::ser::fingerprint(&run_guarded(&inp, &mask))));
+                for t in [1usize, 3] {
+                    // reported as the base fingerprint when the pair of builds is bitwise the same after other builds as in a fresh pool
+                    let same = in_pool_history(t, &inp, &mask);
+                    hashes.push((format!("after-other-builds-threads{}", t), if same { crate::ser::fingerprint(&base) } else { 0xdead }));
+                }
                 res.push_str(" HASHES");
                 for (k, h) in hashes {
                     res.push_str(&format!(" {} {:016x}", k, h));
@@ -110,8 +234,27 @@ pub fn run(out: &mut Out, rng: &mut Rng, thorough: bool) {
             }
             #[cfg(not(feature = "rayon"))]
             {
-                let base = run_guarded(&inp, &mask);
+                // fresh threads: thread-local state of the library starts empty in each
+                let (i1, m1) = (inp.clone(), mask.clone());
+                let base = std::thread::spawn(move || run_guarded(&i1, &m1)).join().unwrap_or_else(|_| "PANIC thread".to_string());
+                let (i2, m2) = (inp.clone(), mask.clone());
+                let hist = std::thread::spawn(move || with_history(&i2, &m2)).join().unwrap_or_else(|_| "PANIC thread".to_string());
+                let (i3, m3) = (inp.clone(), mask.clone());
+                let fresh = std::thread::spawn(move || pair(&i3, &m3)).join().unwrap_or_else(|_| "PANIC thread".to_string());
+                let (contracted, _) = history_inputs(&inp).remove(0);
+                let (i4, m4, c4) = (inp.clone(), mask.clone(), contracted.clone());
+                let hist2 = std::thread::spawn(move || {
+                    let _ = pair(&i4, &m4);
+                    let _ = single(&i4);
+                    pair(&c4, &None)
+                })
+                .join()
+                .unwrap_or_else(|_| "PANIC thread".to_string());
+                let c5 = contracted.clone();
+                let fresh2 = std::thread::spawn(move || pair(&c5, &None)).join().unwrap_or_else(|_| "PANIC thread".to_string());
+                let (hist, fresh) = (format!("{}{}", hist, hist2), format!("{}{}", fresh, fresh2));
                 res = format!("CFG no-rayon {:016x} FULL {}", crate::ser::fingerprint(&base), base);
+                res.push_str(&format!(" HASHES after-other-builds {:016x}", if hist == fresh { crate::ser::fingerprint(&base) } else { 0xdead }));
             }
             out.rec("sched", &inp.family, &format!("{} {}", inp.tokens(), super::tess::mask_tokens(&mask)), &res);
         }
